@@ -336,10 +336,17 @@ fn rect_case(kind: u8, pw: u32, ph: u32, q: (u32, u32, u32, u32)) -> Outcome {
 
 // ------------------------------------------------------------------ (b) f64 crop boxes
 
-fn gen_f64(t: &mut Tape, img: u32) -> f64 {
+fn gen_f64(t: &mut Tape, img: u32, is_size: bool) -> f64 {
     let n = img as f64;
     match t.below(20) {
-        0 => 0.0,
+        0 => {
+            if is_size {
+                n
+            } else {
+                0.0
+            }
+        }
+        19 => 0.0,
         1 => -0.0,
         2 => f64::EPSILON,
         3 => -f64::EPSILON,
@@ -364,11 +371,11 @@ fn gen_f64(t: &mut Tape, img: u32) -> f64 {
 
 fn check_f64_crop(t: &mut Tape) -> Outcome {
     let pt = t.pick(&[PixelType::U8, PixelType::U8x4, PixelType::U16x3, PixelType::F32]);
-    let sw = t.range(0, 12);
-    let sh = t.range(0, 9);
-    let dw = t.range(0, 9);
-    let dh = t.range(0, 7);
-    let b = (gen_f64(t, sw), gen_f64(t, sh), gen_f64(t, sw), gen_f64(t, sh));
+    let sw = 12 - t.range(0, 12);
+    let sh = 9 - t.range(0, 9);
+    let dw = 9 - t.range(0, 9);
+    let dh = 7 - t.range(0, 7);
+    let b = (gen_f64(t, sw, false), gen_f64(t, sh, false), gen_f64(t, sw, true), gen_f64(t, sh, true));
     let alg = match t.below(3) {
         0 => fr::ResizeAlg::Nearest,
         1 => fr::ResizeAlg::Convolution(fr::FilterType::Bilinear),
